@@ -163,8 +163,28 @@ pub fn facts(sys: &System) -> String {
         }
     }
     writeln!(out, "CNT {}", cnt.join(" ")).unwrap();
-    let net = sys.network();
-    writeln!(out, "NC {} {}", net.network_message_count(), net.traffic()).unwrap();
+    {
+        let net = sys.network();
+        writeln!(out, "NC {} {}", net.network_message_count(), net.traffic()).unwrap();
+    }
+    // the process-visible projection (C04)
+    let mut pv = String::new();
+    for n in &nodes {
+        let node = sys.get_node(n).unwrap();
+        let mut procs = node.process_names();
+        procs.sort();
+        for p in &procs {
+            let st = script_state(&node.get_process(p).unwrap().state().unwrap());
+            pv.push_str(&format!(
+                "{{P{} i{} h[{}] o[{}]}}",
+                num(p),
+                st.idx,
+                st.hist.iter().map(c_hentry).collect::<Vec<_>>().join(""),
+                node.local_outbox(p).iter().map(c_msg).collect::<Vec<_>>().join(";")
+            ));
+        }
+    }
+    writeln!(out, "PV {}", fnv(&pv)).unwrap();
     out
 }
 
